@@ -402,7 +402,9 @@ def load(repo):
     _expand_value_helpers(decls)
     _inline_record_locals(decls)
     _counted_while_loops(decls)
+    _tail_counted_while_loops(decls)
     _copy_and_adjust_items(decls)
+    _grown_per_round_vectors(decls)
     try:
         os.makedirs(cdir, exist_ok=True)
         import sys
@@ -466,6 +468,104 @@ def _blank(kind, **kw):
     for k, v in kw.items():
         setattr(n, k, v)
     return n
+
+
+def _grown_per_round_vectors(decls):
+    """A vector local of parse_sentence that starts empty and gets exactly one element appended per round of a top-level
+    loop over 0..n-1 (`v.emplace_back(..)` as a statement of the loop body itself, nowhere else) has, in round i, its last
+    element at position i: `v.back()` after that statement reads as `v[i]` there.  (The per-word candidate queues built
+    with room reserved: `scored.emplace_back(less, std::move(storage)); auto &ranking = scored.back();`.)  Only when the
+    appended element starts empty: no arguments, or a comparator and a moved-in local vector that was only reserve()d."""
+    ps = decls.get('parse_sentence')
+    if ps is None:
+        return
+    bodies = [k for k in ps.kids if k.kind == 'CompoundStmt']
+    if not bodies:
+        return
+    top = bodies[0]
+    sized = {}
+    for st in top.kids:
+        if st.kind == 'DeclStmt':
+            for vd in st.kids:
+                if vd.kind == 'VarDecl' and 'vector<' in (vd.type or ''):
+                    ctor = [k for k in vd.kids if k.kind in ('CXXConstructExpr', 'InitListExpr', 'ExprWithCleanups')]
+                    has_args = any(k.kids for k in ctor)
+                    sized[vd.name] = has_args
+    grown = {}
+    for n in ps.walk():
+        if n.kind == 'CXXMemberCallExpr' and strip(n.kids[0]).name in ('emplace_back', 'push_back') and strip(n.kids[0]).kids:
+            b = strip(strip(n.kids[0]).kids[0])
+            if b.kind == 'DeclRefExpr' and b.ref in sized:
+                grown.setdefault(b.ref, []).append(n)
+    for name, calls in grown.items():
+        if sized.get(name) or len(calls) != 1:
+            continue
+        call = calls[0]
+        stmt = call
+        loop = call.parent
+        while loop is not None and loop.kind in ('ExprWithCleanups',):
+            stmt = loop
+            loop = loop.parent
+        body = loop
+        if body is None or body.kind != 'CompoundStmt' or body.parent is None or body.parent.kind != 'ForStmt' or body.parent.parent is not top:
+            continue
+        fs = body.parent
+        init, cond, inc, fbody = for_parts(fs)
+        vds = init.find('VarDecl') if init is not None else []
+        if len(vds) != 1 or fbody is not body:
+            continue
+        iv = vds[0]
+        lits = [x for x in iv.walk() if x.kind == 'IntegerLiteral']
+        if len(lits) != 1 or str(lits[0].value) != '0':
+            continue
+        i_inc = strip(inc) if inc is not None else None
+        if i_inc is None or i_inc.kind != 'UnaryOperator' or i_inc.op != '++' or strip(i_inc.kids[0]).ref != iv.name:
+            continue
+        if any(k.kind in ('ContinueStmt', 'BreakStmt') for k in body.walk() if not any(a.kind in ('ForStmt', 'WhileStmt', 'DoStmt', 'CXXForRangeStmt') and a is not fs for a in k.ancestors() if a in list(body.walk()))):
+            continue
+        # the element starts empty
+        args = call.kids[1:]
+        ok = True
+        for a in args:
+            r = strip(a)
+            while r.kind in ('MaterializeTemporaryExpr', 'CXXBindTemporaryExpr', 'ExprWithCleanups', 'CXXFunctionalCastExpr', 'CXXConstructExpr') and len(r.kids) <= 1:
+                if not r.kids:
+                    break
+                r = strip(r.kids[0])
+            if r.kind in ('CXXTemporaryObjectExpr', 'CXXConstructExpr', 'CXXFunctionalCastExpr') and not r.kids:
+                continue            # a default-constructed comparator
+            if r.kind == 'CallExpr' and (strip(r.kids[0]).ref or '') in ('move', 'forward') and len(r.kids) == 2 and strip(r.kids[1]).kind == 'DeclRefExpr':
+                src = strip(r.kids[1]).ref
+                uses = [m for m in body.walk() if m.kind == 'CXXMemberCallExpr' and strip(n_kid(m)).kind == 'DeclRefExpr' and strip(n_kid(m)).ref == src]
+                if all(strip(m.kids[0]).name == 'reserve' for m in uses) and any(d.kind == 'VarDecl' and d.name == src and not [k for k in d.kids if k.kids] for d in body.find('VarDecl')):
+                    continue
+            ok = False
+        if not ok:
+            continue
+        idx = list(body.kids).index(stmt) if stmt in body.kids else None
+        if idx is None:
+            continue
+        for later in body.kids[idx + 1:]:
+            for m in list(later.walk()):
+                if m.kind == 'CXXMemberCallExpr' and strip(m.kids[0]).name == 'back' and len(m.kids) == 1 and strip(m.kids[0]).kids \
+                        and strip(strip(m.kids[0]).kids[0]).kind == 'DeclRefExpr' and strip(strip(m.kids[0]).kids[0]).ref == name:
+                    base = strip(strip(m.kids[0]).kids[0])
+                    sub = _blank('CXXOperatorCallExpr', type=m.type, line=m.line)
+                    opref = _blank('DeclRefExpr', ref='operator[]', line=m.line)
+                    ivref = _blank('DeclRefExpr', ref=iv.name, refid=iv.id, refkind='VarDecl', type=iv.type, line=m.line)
+                    sub.kids = [opref, clone(base), ivref]
+                    par = m.parent
+                    for k_i, k in enumerate(par.kids):
+                        if k is m:
+                            par.kids[k_i] = sub
+                    sub.parent = par
+                    for k in sub.kids:
+                        k.parent = sub
+
+
+def n_kid(m):
+    c = strip(m.kids[0])
+    return c.kids[0] if c.kids else c
 
 
 def _copy_and_adjust_items(decls):
@@ -552,6 +652,62 @@ def _copy_and_adjust_items(decls):
             # the declaration and the adjustments are now part of the pushed value
             del blk.kids[i - 1:j]
             i = i - 1
+
+
+def _tail_counted_while_loops(decls):
+    """`unsigned n = 0; while (C) { BODY; n++; }` in any block of parse_sentence, with the counter declared by the statement
+    just before the loop, incremented only by the last statement of the body, not written elsewhere, no `continue` that
+    belongs to this loop (a continue would skip the increment; `break` is fine) and no use of the counter after the loop:
+    the loop `for (unsigned n = 0; C; n++) { BODY }`."""
+    ps = decls.get('parse_sentence')
+    if ps is None:
+        return
+    for blk in [b for b in ps.walk() if b.kind == 'CompoundStmt']:
+        for i, st in enumerate(list(blk.kids)):
+            if st.kind != 'WhileStmt' or i == 0 or len(st.kids) != 2 or st.kids[1].kind != 'CompoundStmt' or len(st.kids[1].kids) < 2:
+                continue
+            prev = blk.kids[i - 1]
+            if prev.kind != 'DeclStmt' or len(prev.kids) != 1 or prev.kids[0].kind != 'VarDecl':
+                continue
+            vd = prev.kids[0]
+            lits = [x for x in vd.walk() if x.kind == 'IntegerLiteral']
+            if len(lits) != 1 or ('int' not in (vd.type or '') and 'size_t' not in (vd.type or '')) or '&' in (vd.type or '') or '*' in (vd.type or ''):
+                continue
+            cond, body = st.kids
+            last = strip(body.kids[-1])
+            if not (last.kind == 'UnaryOperator' and last.op == '++' and strip(last.kids[0]).kind == 'DeclRefExpr' and strip(last.kids[0]).ref == vd.name):
+                continue
+
+            def own(n_):
+                # statements of this loop, not of loops nested in it
+                for k in n_.kids:
+                    yield k
+                    if k.kind not in ('ForStmt', 'WhileStmt', 'DoStmt', 'CXXForRangeStmt', 'LambdaExpr'):
+                        for x in own(k):
+                            yield x
+            if any(k.kind == 'ContinueStmt' for k in own(body)):
+                continue
+            refs = [x for k in body.kids[:-1] for x in k.walk() if x.kind == 'DeclRefExpr' and x.ref == vd.name]
+            writes = [x for x in refs if x.parent is not None and (x.parent.kind in ('CompoundAssignOperator',) or (x.parent.kind == 'UnaryOperator' and x.parent.op in ('++', '--'))
+                                                                    or (x.parent.kind == 'BinaryOperator' and x.parent.op == '=' and x.parent.kids[0] is x))]
+            after = [x for later in blk.kids[i + 1:] for x in later.walk() if x.kind == 'DeclRefExpr' and x.ref == vd.name]
+            if writes or after:
+                continue
+            inc = _blank('UnaryOperator', op='++', is_postfix=True, line=last.line)
+            inc.kids = [clone(strip(last.kids[0]))]
+            nb = _blank('CompoundStmt', line=body.line)
+            nb.kids = list(body.kids[:-1])
+            loop = _blank('ForStmt', line=st.line)
+            loop.kids = [clone(prev), _blank('Null'), cond, inc, nb]
+
+            def adopt(n, parent):
+                n.parent = parent
+                for k in n.kids:
+                    adopt(k, n)
+            adopt(loop, blk)
+            blk.kids[i] = loop
+            blk.kids[i - 1] = _blank('NullStmt', line=prev.line)
+            blk.kids[i - 1].parent = blk
 
 
 def _counted_while_loops(decls):
